@@ -173,6 +173,26 @@ CLAIMED = {
          "asyncio.sleep contract); no liveness claim.",
     technique="contract-based deductive verification: cooperative Owicki-Gries style invariant over atomic segments of the real coroutine, z3",
     design="4 C17 / 5"),
+ "C06": dict(
+    category="proof",
+    text="Deductive, function by function on the real write path: client-side Vector.submit is proved to emit one new*Vector addressed to the property's device and name whose children are exactly "
+         "the elements assigned since the last submit (each with its new value; BLOBs base64-encoded with length and format), and to clear the pending marks; driver-side "
+         "Vector.from_new_message is proved (loop invariant over a message with any number of children, vector of any size) to offer each child to the element of that name only and to ignore "
+         "unknown names; Element.set_value_from_message / set_value (text, number for %f, %d and sexagesimal formats through the real str_to_num, BLOB with size check) are proved to store exactly "
+         "the sent value in the addressed element unless an update handler vetoes; the frame is checked on every other element of the region; switch writes are proved with the rule (C09 tasks).",
+    note="Assumed: float()/int() denote plain decimal notation; base64 round trip; C03/C02/C04 carry the message (composition by contract); the native end-to-end oracle is a bounded stand-in.",
+    technique="contract-based deductive verification (symbolic execution of the real AST, loop-invariant rule with frame check, z3 / cvc5) + bounded native end-to-end stand-in",
+    design="4 C06"),
+ "C08": dict(
+    category="other",
+    text="Deductive chain lemmas on the real code: driver-side BLOB.to_set_message -> wire typing (C03) -> client-side BLOB.set_value_from_message is proved to leave the client holding identical "
+         "bytes, format and length for every byte string and format (also the empty one), and client-side BLOB.to_new_message -> wire -> driver-side BLOB.set_value_from_message likewise; the "
+         "router is proved to deliver a setBLOBVector to exactly the other clients whose policy for the device is Also/Only and to none with unset/Never; Buffer.process is proved to terminate for any "
+         "content (never stalls); the threshold call sites are proved for the client (BLOB connection disabled, control connection announces Never). The call-site obligation fails for the two "
+         "server transports (known finding F21: uploads longer than the 2048-character threshold are destroyed as junk), so this is not claimed as a proof: level 'other'.",
+    note="Assumed: base64 round trip; C03/C02 contracts for codec and framing. Bounded stand-in: native transfer grid across the 1024/2048 boundaries, three fragmentations, four policies, both directions.",
+    technique="contract-based deductive verification (chain lemmas over the real encoder/decoder pairs, router policy corollary, termination variant, call-site obligations; z3/cvc5) + bounded native transfer grid; one known finding",
+    design="4 C08"),
  "C07": dict(
     category="proof",
     text="Deductive, modular: Driver.message_from_client(getProperties) is proved to obtain and send exactly one definition per property -- only the named one when a name is given, "
